@@ -60,7 +60,7 @@ def tight_ok(left, right):
     return False
 
 
-def layout(lines, blanks, eol="\n", tail="", qmark=False, blank_lines=None, blank_fill="", tight=False):
+def layout(lines, blanks, eol="\n", tail="", qmark=False, blank_lines=None, blank_fill="", tight=False, final_eol=True):
     out = []
     k = 0
     for li, toks in enumerate(lines):
@@ -77,7 +77,7 @@ def layout(lines, blanks, eol="\n", tail="", qmark=False, blank_lines=None, blan
         k += len(toks)
         if blank_lines and li in blank_lines:
             out.append(blank_fill)
-    return eol.join(out) + eol + tail
+    return eol.join(out) + (eol if final_eol else "") + tail
 
 
 def convert_text(text, opts):
@@ -179,6 +179,14 @@ def ifelse_call_literals(prog):
             lits(st[1], False)
             for c, _ in st[3]:
                 lits(c, False)
+            # an IF that opens the ELSE arm reads, in the text, as one more ELSE IF of the same statement
+            els = st[4]
+            while els is not None and els[0] == "stmts" and els[1] and els[1][0][0] == "if":
+                inner = els[1][0]
+                lits(inner[1], False)
+                for c, _ in inner[3]:
+                    lits(c, False)
+                els = inner[4]
     return out
 
 
@@ -287,6 +295,15 @@ def run_case(case):
         variants.append(("crlf", dict(blanks=one, eol="\r\n")))
         variants.append(("nul", dict(blanks=one, tail="\x00")))
         variants.append(("blank-lines", dict(blanks=one, blank_lines={0, len(lines) - 1})))
+        last_tok = lines[-1][-1][0] if lines and lines[-1] else ""
+        if any(t.startswith(("REM", "'")) for t, g in lines[-1]):
+            last_tok = ""               # a comment takes everything up to the line end, the NUL included
+        if last_tok[:1].isdigit() or last_tok == ")" or (last_tok[:1] == '"' and last_tok.endswith('"') and len(last_tok) > 1) or \
+                (last_tok[:1].isalpha() and last_tok.rstrip("$").isalnum() and not any(t == "DATA" for t, g in lines[-1])):
+            # the file ends in a NUL straight after the last token, with no line end (only where that token cannot take the
+            # NUL in as content: a number, a closing parenthesis, a closed string, a name outside DATA)
+            variants.append(("nul-no-eol", dict(blanks=one, tail="\x00", final_eol=False)))
+            variants.append(("no-eol", dict(blanks=one, final_eol=False)))
         # blank lines that hold blanks, after the first, a middle and the last line, under each kind of line end
         for nm, e in (("lf", "\n"), ("cr", "\r"), ("crlf", "\r\n")):
             variants.append(("blanks-only-lines-" + nm, dict(blanks=one, eol=e, blank_lines={0, len(lines) // 2, len(lines) - 1},
@@ -311,7 +328,7 @@ def run_case(case):
         if name.startswith("gap"):
             gi = int(name[3:].split("=")[0])
             sig_gap = next(g for g in gaps if g[0] == gi)
-        elif "blanks" in kw and name not in ("qmark", "cr", "crlf", "nul", "blank-lines", "tight-keywords") and not name.startswith("blanks-only-lines"):
+        elif "blanks" in kw and name not in ("qmark", "cr", "crlf", "nul", "blank-lines", "tight-keywords", "nul-no-eol", "no-eol") and not name.startswith("blanks-only-lines"):
             for g in gaps:
                 nb = kw["blanks"](g[0], g[3])
                 dflt = 1 if g[3] in ("soft", "req") else 0
@@ -358,6 +375,8 @@ CONTENT_PROGS = [
     [(10, [("let", ("var", "A"), ("num", 1.0, ["1"]), False), ("rem", " note Two", "REM")]), (20, [("rem", " it's Here", "'")]),
      (30, [("data", [("u", "x"), ("n", 5.0, ["5"]), ("u", "Yes No")])])],
     [(5, [("data", [("u", "rem not a comment"), ("u", "Data")])]), (7, [("rem", "data Not items, really", "REM")])],
+    [(10, [("read", [("var", "A"), ("var", "B"), ("var", "C")])]), (30, [("data", [("n", 10.0, ["10"]), ("n", 20.0, ["20"]), ("h", 31, "1F")])])],
+    [(10, [("read", [("var", "A"), ("var", "B$")])]), (30, [("data", [("q", "X Y"), ("n", 0.5, [".5"])])])],
 ]
 
 
